@@ -294,12 +294,16 @@ pub struct Ev<'a> {
     pub ext_vals: std::collections::HashMap<String, Val>,
     pub forks: std::cell::Cell<usize>,
     pub calls: std::cell::Cell<usize>,
+    /// functions whose bodies were evaluated (self-test: GENLINT_COVERAGE=<file> appends them on drop)
+    pub entered: std::cell::RefCell<std::collections::BTreeSet<String>>,
     pub trace: bool,
     pub fork_budget: usize,
 }
 
 impl<'a> Drop for Ev<'a> {
-    fn drop(&mut self) { if std::env::var("GENLINT_SHOW_FORKS").is_ok() && self.forks.get() > 10_000 { eprintln!("forks: {} calls: {}", self.forks.get(), self.calls.get()); } }
+    fn drop(&mut self) {
+        if let Ok(p) = std::env::var("GENLINT_COVERAGE") { use std::io::Write; if let Ok(mut f) = std::fs::OpenOptions::new().create(true).append(true).open(p) { for q in self.entered.borrow().iter() { let _ = writeln!(f, "{q}"); } } }
+        if std::env::var("GENLINT_SHOW_FORKS").is_ok() && self.forks.get() > 10_000 { eprintln!("forks: {} calls: {}", self.forks.get(), self.calls.get()); } }
 }
 
 fn then(outs: Outs, mut f: impl FnMut(St, Val) -> Outs) -> Outs {
@@ -319,7 +323,7 @@ fn path_str(p: &syn::Path) -> Vec<String> {
 
 impl<'a> Ev<'a> {
     pub fn new(ix: &'a Index) -> Self {
-        Ev { ix, cur_file: Default::default(), unsupported: Default::default(), push_fns: vec![], stops: vec![], max_depth: 12, open_at_top: Default::default(), inner_unroll: None, stop_vals: Default::default(), assume_true_suffix: vec![], ext_vals: Default::default(), forks: Default::default(), calls: Default::default(), trace: std::env::var("GENLINT_TRACE").is_ok(), fork_budget: std::env::var("GENLINT_FORK_BUDGET").ok().and_then(|s| s.parse().ok()).unwrap_or(60_000) }
+        Ev { ix, cur_file: Default::default(), unsupported: Default::default(), push_fns: vec![], stops: vec![], max_depth: 12, open_at_top: Default::default(), inner_unroll: None, stop_vals: Default::default(), assume_true_suffix: vec![], ext_vals: Default::default(), forks: Default::default(), calls: Default::default(), entered: Default::default(), trace: std::env::var("GENLINT_TRACE").is_ok(), fork_budget: std::env::var("GENLINT_FORK_BUDGET").ok().and_then(|s| s.parse().ok()).unwrap_or(60_000) }
     }
     fn site(&self, sp: proc_macro2::Span) -> String {
         format!("{}:{}", self.cur_file.borrow(), sp.start().line)
@@ -445,6 +449,7 @@ impl<'a> Ev<'a> {
             };
             return vec![(st, Flow::Val(v))];
         }
+        self.entered.borrow_mut().insert(f.qual.clone());
         let saved_env = std::mem::replace(&mut st.env, vec![HashMap::new()]);
         let saved_self = std::mem::replace(&mut st.self_ty, f.self_ty.clone());
         let saved_file = self.cur_file.replace(f.file.clone());
@@ -1333,6 +1338,7 @@ impl<'a> Ev<'a> {
                     let n = p.path.segments[0].ident.to_string();
                     match st.lookup(&n) {
                         Some(Val::CellRef(i)) => st.cells[i] = v,
+                        Some(Val::Sym { path, .. }) => st.events.push(Event::Note(format!("deref-assign ${path} := {}", self.deref(st, &v).short().chars().take(120).collect::<String>()))),
                         _ => self.unsup("deref-assign to non-cell", left.span()),
                     }
                 } else {
@@ -1421,6 +1427,7 @@ impl<'a> Ev<'a> {
                             (Val::Tuple(a), Val::Tuple(b)) if a.len() == b.len() && a.iter().chain(b.iter()).all(|x| matches!(x, Val::Bool(_))) => {
                                 if a.iter().zip(b).all(|(x, y)| x.short() == y.short()) { F::T } else { F::Fl }
                             }
+                            (o, Val::Tmpl(t)) | (Val::Tmpl(t), o) if t.holes.is_empty() && !matches!(o, Val::Tmpl(_)) => F::A(format!("{}==quote({})", o.short().chars().take(80).collect::<String>(), t.tokens.replace(' ', ""))),
                             (Val::Opaque { .. }, Val::Int(k)) | (Val::Sym { .. }, Val::Int(k)) => F::A(format!("{}=={k}", l.short())),
                             _ => F::A(format!("{}=={}", l.short(), r.short())),
                         };
